@@ -223,7 +223,10 @@ impl PqFold for SortingInference<'_> {
                             .anchor
                             .relation_instances
                             .iter_mut()
-                            .find(|(_riid, rel_inst)| rel_inst.table_ref.source == cte.tid)
+                            .filter(|(_riid, rel_inst)| rel_inst.table_ref.source == cte.tid)
+                            // several instances may refer to the CTE: take the first one, not
+                            // whichever the hash map yields first
+                            .min_by_key(|(riid, _)| **riid)
                             .unwrap();
 
                         cid_redirects_to_add
